@@ -70,6 +70,7 @@ type ccase struct {
 	initIns, initOuts  []int
 	steps              []int
 	invKind, initKind  int // 0 pointer to func, 1 plain func, 2 nil, 3 pointer to a non-func
+	regroup            int // != 0: build the same list through nested Sequences / Append / collection-level annotations
 }
 
 func ints(l []int) string {
@@ -123,8 +124,8 @@ func (c *ccase) encode() string {
 	}
 	fmt.Fprintf(&sb, " | %d %s %s", hi, ints(c.initIns), ints(c.initOuts))
 	fmt.Fprintf(&sb, " | %s", ints(c.steps))
-	if c.invKind != 0 || c.initKind != 0 {
-		fmt.Fprintf(&sb, " | %d %d", c.invKind, c.initKind)
+	if c.invKind != 0 || c.initKind != 0 || c.regroup != 0 {
+		fmt.Fprintf(&sb, " | %d %d %d", c.invKind, c.initKind, c.regroup)
 	}
 	return sb.String()
 }
@@ -224,6 +225,9 @@ func parseChain(line string) *ccase {
 		c.invKind = r.next()
 		c.initKind = r.next()
 	}
+	if r.more() {
+		c.regroup = r.next()
+	}
 	return c
 }
 
@@ -233,6 +237,37 @@ type runner struct {
 	mu  sync.Mutex
 	cnt int
 	log []string
+	dbg string // what the first *Debugging value seen by a provider says
+}
+
+// seeDebugging records the Debugging value handed to a provider (once per case).
+func (rn *runner) seeDebugging(in []reflect.Value) {
+	if rn.dbg != "" {
+		return
+	}
+	for _, v := range in {
+		if !v.IsValid() || v.Kind() != reflect.Ptr || v.IsNil() {
+			continue
+		}
+		d, ok := v.Interface().(*nject.Debugging)
+		if !ok {
+			continue
+		}
+		names := make([]string, len(d.NamesIncluded))
+		for i, n := range d.NamesIncluded {
+			names[i] = strings.ReplaceAll(n, " ", "_")
+		}
+		inc, exc := 0, 0
+		for _, l := range d.IncludeExclude {
+			switch {
+			case strings.HasPrefix(l, "INCLUDED:"):
+				inc++
+			case strings.HasPrefix(l, "EXCLUDED:"):
+				exc++
+			}
+		}
+		rn.dbg = fmt.Sprintf("DBG %s inc=%d exc=%d n=%d", strings.Join(names, ","), inc, exc, len(d.Included))
+	}
 }
 
 func (rn *runner) tick() int {
@@ -285,6 +320,7 @@ func (rn *runner) makeProvider(p *cprovider) any {
 		body := func(in []reflect.Value) []reflect.Value {
 			rn.mu.Lock()
 			defer rn.mu.Unlock()
+			rn.seeDebugging(in)
 			s := rn.tick()
 			failing := (p.failmask>>(uint(s)%8))&1 == 1
 			outs := make([]reflect.Value, len(p.outs))
@@ -302,6 +338,7 @@ func (rn *runner) makeProvider(p *cprovider) any {
 	case 3:
 		body := func(in []reflect.Value) []reflect.Value {
 			rn.mu.Lock()
+			rn.seeDebugging(in[1:])
 			s0 := rn.tick()
 			rn.logf("E%d%s", p.pid, showVals(in[1:]))
 			ncalls := 1
@@ -429,6 +466,24 @@ func (rn *runner) buildItems(c *ccase, idToPid map[int32]int) []any {
 	i := 0
 	for i < len(c.provs) {
 		p := c.provs[i]
+		if c.regroup != 0 && p.cluster == 0 {
+			// a run of unclustered providers sharing an annotation: annotate the collection instead
+			if j, flag, fn := liftable(c.provs, i, c.regroup+i); j > i+1 {
+				var members []any
+				for k := i; k < j; k++ {
+					q := *c.provs[k]
+					q.annots &^= flag
+					x := annotate(&q, rn.makeProvider(c.provs[k]))
+					for _, id := range nject.VerifIDs(x) {
+						idToPid[id] = q.pid
+					}
+					members = append(members, x)
+				}
+				items = append(items, fn(nject.Sequence(fmt.Sprintf("lift%d", i), members...)))
+				i = j
+				continue
+			}
+		}
 		if p.cluster == 0 {
 			x := annotate(p, rn.makeProvider(p))
 			for _, id := range nject.VerifIDs(x) {
@@ -577,6 +632,9 @@ func showPlan(info nject.VerifBindInfo, idToPid map[int32]int) string {
 func (rn *runner) bindCase(c *ccase) (err error, plan string, invoke, init reflect.Value) {
 	idToPid := map[int32]int{}
 	items := rn.buildItems(c, idToPid)
+	if c.regroup != 0 {
+		items = regroupItems(newRng(uint64(c.regroup)), items, 0)
+	}
 	coll := nject.Sequence("", items...)
 	invPtr := reflect.New(reflect.FuncOf(rtypes(c.invIns), rtypes(c.invOuts), false))
 	var invArg any = invPtr.Interface()
@@ -672,5 +730,72 @@ func runChain(line string) string {
 			}
 		}
 	}()
-	return "BIND ok ; " + plan + " ; RES " + strings.Join(res, " ") + " ; LOG " + strings.Join(rn.log, " ")
+	out := "BIND ok ; " + plan + " ; RES " + strings.Join(res, " ") + " ; LOG " + strings.Join(rn.log, " ")
+	if rn.dbg != "" {
+		out += " ; " + rn.dbg
+	}
+	return out
+}
+
+// regroupItems re-expresses a provider list through nested Sequences and Append; the flattened
+// list is the same, so validity and behaviour must be the same (C13).
+func regroupItems(r *rng, items []any, depth int) []any {
+	if len(items) < 2 || depth > 2 {
+		return items
+	}
+	var out []any
+	i := 0
+	g := 0
+	for i < len(items) {
+		n := 1 + r.intn(4)
+		if i+n > len(items) {
+			n = len(items) - i
+		}
+		chunk := items[i : i+n]
+		g++
+		name := fmt.Sprintf("g%d_%d", depth, g)
+		switch r.intn(5) {
+		case 0:
+			out = append(out, chunk...)
+		case 1:
+			out = append(out, nject.Sequence(name, regroupItems(r, chunk, depth+1)...))
+		case 2:
+			// base.Append twice: the first result must not be affected by the second
+			k := len(chunk) - 1
+			if k < 1 {
+				k = 1
+			}
+			c := nject.Sequence(name, chunk[:k]...)
+			first := c.Append(name+"a", chunk[k:]...)
+			_ = c.Append(name+"decoy", chunk[0], chunk[0], chunk[0])
+			out = append(out, first)
+		case 3:
+			out = append(out, nject.Sequence(name, nject.Sequence(name+"i", chunk...)))
+		default:
+			// an unnamed sub-collection, and an empty one next to it
+			out = append(out, nject.Sequence("", chunk...), nject.Sequence(name+"e"))
+		}
+		i += n
+	}
+	return out
+}
+
+// liftable finds a run of consecutive unclustered providers starting at i that all carry one
+// of a few annotations (chosen pseudo-randomly from the seed) and returns its end, the flag and the
+// annotation function to apply to the collection.
+func liftable(provs []*cprovider, i int, seed int) (int, int, func(any) nject.Provider) {
+	type cand struct {
+		flag int
+		fn   func(any) nject.Provider
+	}
+	cands := []cand{{aDesired, nject.Desired}, {aCacheable, nject.Cacheable}, {aRequired, nject.Required}, {aShun, nject.Shun}, {aNonFinal, nject.NonFinal}}
+	cd := cands[seed%len(cands)]
+	if seed%3 != 0 {
+		return i, 0, nil
+	}
+	j := i
+	for j < len(provs) && provs[j].cluster == 0 && provs[j].annots&cd.flag != 0 && provs[j].rep == 0 && provs[j].bef == 0 && provs[j].aft == 0 {
+		j++
+	}
+	return j, cd.flag, cd.fn
 }
